@@ -1,21 +1,35 @@
 #!/bin/bash
 # build_rs.sh : builds /repo's reed-solomon-ffi staticlib (lib.rs from the CURRENT tree, or from a
-# mutant overlay) against the std-only stand-in crate, into /verif/.build/rs/target/release.
+# mutant overlay) against the std-only stand-in crate. The target directory is keyed by the content
+# hash of all inputs (never by mtimes), and the link path handed to go carries that hash, so neither
+# cargo's freshness check nor the Go build cache can reuse a library built from other sources.
 set -eu
 V="$(cd "$(dirname "$0")/.." && pwd)"
 S=/repo/pkg/erasure_coding/reed-solomon-ffi
-D="$V/.build/rs/ffi"
-rm -rf "$D"; mkdir -p "$D/src"
-cp "$S/src/lib.rs" "$D/src/lib.rs"
+W="$V/.build/rs/work.$$"; rm -rf "$W"; mkdir -p "$W/src"
+cp "$S/src/lib.rs" "$W/src/lib.rs"
 if [ -n "${VERIF_MUTANT:-}" ]; then
-  python3 - "$VERIF_MUTANT" "$S/src/lib.rs" "$D/src/lib.rs" <<'PY'
+  python3 - "$VERIF_MUTANT" "$S/src/lib.rs" "$W/src/lib.rs" <<'PY'
 import json,sys,shutil
 rep=json.load(open(sys.argv[1]))["Replace"]
 if sys.argv[2] in rep: shutil.copy(rep[sys.argv[2]], sys.argv[3])
 PY
 fi
-sed "s#^reed-solomon-simd = .*#reed-solomon-simd = { path = \"$V/standin/reed-solomon-simd\" }#" "$S/Cargo.toml" > "$D/Cargo.toml"
-grep -q 'path = ' "$D/Cargo.toml" || { echo "build_rs: could not redirect the reed-solomon-simd dependency"; exit 2; }
-cd "$D"
-CARGO_NET_OFFLINE=true CARGO_TARGET_DIR="$V/.build/rs/target" cargo build --release --offline -q 2>&1 | tail -20
-test -f "$V/.build/rs/target/release/libreed_solomon_ffi.a"
+sed "s#^reed-solomon-simd = .*#reed-solomon-simd = { path = \"$V/standin/reed-solomon-simd\" }#" "$S/Cargo.toml" > "$W/Cargo.toml"
+grep -q 'path = ' "$W/Cargo.toml" || { echo "build_rs: could not redirect the reed-solomon-simd dependency"; exit 2; }
+h=$(cat "$W/src/lib.rs" "$W/Cargo.toml" "$V/standin/reed-solomon-simd/src/lib.rs" "$V/standin/reed-solomon-simd/Cargo.toml" | sha256sum | cut -c1-16)
+L="$V/.build/rs/lib-$h"
+if [ ! -f "$L/libreed_solomon_ffi.a" ]; then
+  D="$V/.build/rs/ffi-$h"; rm -rf "$D"; mv "$W" "$D"
+  (cd "$D" && CARGO_NET_OFFLINE=true CARGO_TARGET_DIR="$V/.build/rs/target-$h" cargo build --release --offline -q 2>&1 | tail -20)
+  test -f "$V/.build/rs/target-$h/release/libreed_solomon_ffi.a"
+  mkdir -p "$L.tmp.$$"; cp "$V/.build/rs/target-$h/release/libreed_solomon_ffi.a" "$L.tmp.$$/"
+  mv "$L.tmp.$$" "$L" 2>/dev/null || rm -rf "$L.tmp.$$"
+  rm -rf "$V/.build/rs/target-$h" "$D"
+else
+  rm -rf "$W"
+fi
+if [ -n "${VERIF_BDIR:-}" ]; then
+  printf '{"CGO_LDFLAGS": "-L%s"}\n' "$L" > "$VERIF_BDIR/build_env.json"
+fi
+echo "build_rs: library $L"
